@@ -9,9 +9,16 @@ def logged(fn):
     return wrapper
 
 
+BASE = 6
+
+
 class K:
     def __init__(self, key):
         self.key = key
+
+    def glob(self, x):
+        v = x + BASE            # reads a module global
+        return v
 
     def meth(self, x):
         v = x + 1
